@@ -795,7 +795,25 @@ func ruleHTTPClientPrivate(rule string) ruleFn {
 				}
 			})
 		}
-		if n < 4 {
+		// ... and a ReplicaClient of its own: the constructor hands out a fresh object on every call
+		// (a cache keyed by address makes SetTimeout / Revert's "no deadline" outlive the request
+		// that asked for it)
+		if nc := c.Anchor(rule, "replica/client.NewReplicaClient"); nc != nil {
+			RN := NewRenderer(nc)
+			for _, r := range Returns(nc) {
+				if len(r.Results) == 0 || isNilConst(strip(r.Results[0])) {
+					continue
+				}
+				n++
+				key := FnName(nc) + " | a client of its own per call"
+				if isFreshBase(r.Results[0]) {
+					c.OK(rule, key, c.P.InstrPos(r), "fresh allocation", false)
+				} else {
+					c.Bad(rule, key, c.P.InstrPos(r), "returns "+RN.V(r.Results[0])+", an object that earlier callers hold as well", nil)
+				}
+			}
+		}
+		if n < 5 {
 			c.Undecided(rule, "vacuity-floor", "", fmt.Sprintf("only %d sites found", n))
 		}
 	}
@@ -1242,6 +1260,37 @@ func ruleCountForward(rule string) ruleFn {
 		}
 		if n < 6 {
 			c.Undecided(rule, "vacuity-floor", "", fmt.Sprintf("only %d returns after a fan-out found", n))
+		}
+	}
+}
+
+// ---------------------------------------------------------------------------
+// C09-VOLCOUNT: the replica count replicas bootstrap on counts data replicas
+// ---------------------------------------------------------------------------
+
+func ruleVolumeCount(rule string) ruleFn {
+	return func(c *Ctx) {
+		c.Doc(rule, "the volume resource of the controller's REST API publishes len(Controller.ListReplicas()) - the data replicas - as its replica count: a replica process takes `ReplicaCount == 0` as its only cue to register for the bootstrap election (and the 'start' action is offered only then), while the controller itself decides bootstrap mode by its data replicas; a count that includes quorum replicas leaves a volume that lost all data replicas without any registrant")
+		n := 0
+		for _, fn := range pkgFuncs(c.P, "controller/rest") {
+			R := NewRenderer(fn)
+			for _, in := range CallsTo(fn, "controller/rest.NewVolume") {
+				cl := in.(*ssa.Call)
+				if len(cl.Call.Args) < 4 {
+					continue
+				}
+				n++
+				key := FnName(fn) + " | replica count published"
+				got := R.V(cl.Call.Args[3])
+				if got == "len($0.c.replicas)" || got == "len("+fCtl+"ListReplicas($0.c))" {
+					c.OK(rule, key, c.P.InstrPos(in), got, false)
+				} else {
+					c.Bad(rule, key, c.P.InstrPos(in), "publishes "+got+" as the replica count, expected the number of data replicas", nil)
+				}
+			}
+		}
+		if n < 1 {
+			c.Undecided(rule, "vacuity-floor", "", "no NewVolume call found")
 		}
 	}
 }
